@@ -393,6 +393,11 @@ def remove_block(
         cfi_directives,
     )
 
+    # Do this before retargeting the incoming edges: retargeting can make an
+    # incoming return edge coincide with one that belongs to this block's own
+    # call, and that one is removed here.
+    _remove_outgoing_edges(cache, block)
+
     if can_remove:
         sym_target = proxy_block or next_block or prev_block
         cache.reference_cache.retarget_references(
@@ -416,8 +421,6 @@ def remove_block(
             _update_pe_safe_seh(block, next_block)
 
         _remove_alignment(block)
-
-    _remove_outgoing_edges(cache, block)
 
     _remove_aux_data_entries(block)
 
